@@ -53,6 +53,21 @@ def coords_of(ev, why):
     return d
 
 
+def other_surfaces(ctx):
+    """operators (C10 driver) and blends / compositing (C08 driver) on their quick lattices, judged for finiteness here"""
+    bins = cargo_build(["ops", "blend"])
+    nodes = ctx.p("nodes.json")
+    json.dump({k: [None if r is None else list(r) for r in v] for k, v in NODES.items()}, open(nodes, "w"))
+    out = []
+    tp = ctx.p("c07.ops.ndjson")
+    run_bin(bins["ops"], ["--tier", "quick", "--nodes", nodes, "--out", tp], env={"VERIF_SEED": ctx.seed})
+    out.append(("ops", tp))
+    tp = ctx.p("c07.blend.ndjson")
+    run_bin(bins["blend"], ["--tier", "quick", "--out", tp], env={"VERIF_SEED": ctx.seed})
+    out.append(("blend", tp))
+    return out
+
+
 def run(ctx):
     bins = cargo_build(["conv64", "conv32"])
     cmds = ctx.p("c07.cmds")
@@ -73,6 +88,15 @@ def run(ctx):
             what = "%s %s -> %s: %s for input %s" % (ev.get("t"), d.get("from"), d.get("to"), why,
                                                      [dy_to_float(x) for x in (ev["vals"][0] if "vals" in ev else ev["in"])])
             report(ctx, d, what, {"bin": b, "event": ev, "trace_line": line})
+    for tag, tp in other_surfaces(ctx):
+        res = validate_trace(ctx, "TraceFinite", tp, stateless=True, chunk_events=12000, tag="c07." + tag)
+        ctx.cov["traces_validated_against_impl"] += res.events - len(res.rejected)
+        add_samples(ctx, tp, n=1, every=40009)
+        for (line, ev, info, _) in res.rejected:
+            why = info.strip().strip('"')
+            d = {"kind": ev["ev"], "class": why, "t": ev.get("t"), "from": ev.get("node") or ev.get("ty"), "to": ev.get("call") or ev.get("mode")}
+            what = "%s %s %s: %s; event %s" % (ev.get("t"), d["from"], d["to"], why, json.dumps(ev)[:400])
+            report(ctx, d, what, {"bin": tag, "event": ev, "trace_line": line})
     return finish(ctx, "model_checking",
                   rule="a case is one API call on one lattice colour; distinct by call and exact input; the lattice consists of the "
                        "degenerate boundaries (each component at min, max, zero, a billionth inside, quarter points; hues at sector edges)",
